@@ -35,21 +35,21 @@ theorem C15_eqAny_trans (a b c : Key) (h1 : eqAny a b = true) (h2 : eqAny b c = 
     eqAny a c = true := by
   rw [C15_eqAny_iff] at *; exact h1.trans h2
 
-/-- The names used by the build model are an injective image of the keys (for the 8 type tags
+/-- The names used by the build model are an injective image of the keys (for the 16 type tags
 the harness uses). -/
-theorem C15_encode_injective (a b : Key) (ha : a.ty < 8) (hb : b.ty < 8)
+theorem C15_encode_injective (a b : Key) (ha : a.ty < 16) (hb : b.ty < 16)
     (h : encode a = encode b) : a = b := by
   cases a; cases b
   simp only [encode, Key.mk.injEq] at *
   omega
 
-theorem C15_encode_eq_iff_eqAny (a b : Key) (ha : a.ty < 8) (hb : b.ty < 8) :
+theorem C15_encode_eq_iff_eqAny (a b : Key) (ha : a.ty < 16) (hb : b.ty < 16) :
     encode a = encode b ↔ eqAny a b = true := by
   rw [C15_eqAny_iff]
   exact ⟨C15_encode_injective a b ha hb, fun h => h ▸ rfl⟩
 
 /-- Same fields, different type ⇒ different names. -/
-theorem C15_encode_different_types (a b : Key) (ha : a.ty < 8) (hb : b.ty < 8) (h : a.ty ≠ b.ty) :
+theorem C15_encode_different_types (a b : Key) (ha : a.ty < 16) (hb : b.ty < 16) (h : a.ty ≠ b.ty) :
     encode a ≠ encode b := by
   intro he; exact h (congrArg Key.ty (C15_encode_injective a b ha hb he))
 
@@ -315,24 +315,24 @@ theorem C15_node_stable_res {st : Store} (h : st.TablesWF) {r n : Nat}
     aget (st.getOrCreateTaskNode t').1.resNode r = some n :=
   ⟨(getOrCreateResNode_spec h r').2.2.1 r n hn, by rw [(getOrCreateTaskNode_spec h t').2.2.2.1]; exact hn⟩
 
-/-- End to end: two type-erased task keys (type tag `< 8`) get the same store node iff `eq_any`
+/-- End to end: two type-erased task keys (type tag `< 16`) get the same store node iff `eq_any`
 says they are the same; in particular keys of different types never share a node. -/
 theorem C15_key_node_shared_iff {st : Store} (h : st.TablesWF) (a b : Key)
-    (ha : a.ty < 8) (hb : b.ty < 8) :
+    (ha : a.ty < 16) (hb : b.ty < 16) :
     (st.getOrCreateTaskNode (encode a)).2 =
         ((st.getOrCreateTaskNode (encode a)).1.getOrCreateTaskNode (encode b)).2 ↔
       eqAny a b = true := by
   rw [C15_node_shared_iff h, C15_encode_eq_iff_eqAny a b ha hb]
 
 theorem C15_key_res_node_shared_iff {st : Store} (h : st.TablesWF) (a b : Key)
-    (ha : a.ty < 8) (hb : b.ty < 8) :
+    (ha : a.ty < 16) (hb : b.ty < 16) :
     (st.getOrCreateResNode (encode a)).2 =
         ((st.getOrCreateResNode (encode a)).1.getOrCreateResNode (encode b)).2 ↔
       eqAny a b = true := by
   rw [C15_res_node_shared_iff h, C15_encode_eq_iff_eqAny a b ha hb]
 
 theorem C15_different_types_never_share_node {st : Store} (h : st.TablesWF) (a b : Key)
-    (ha : a.ty < 8) (hb : b.ty < 8) (hty : a.ty ≠ b.ty) :
+    (ha : a.ty < 16) (hb : b.ty < 16) (hty : a.ty ≠ b.ty) :
     (st.getOrCreateTaskNode (encode a)).2 ≠
         ((st.getOrCreateTaskNode (encode a)).1.getOrCreateTaskNode (encode b)).2 ∧
     (st.getOrCreateResNode (encode a)).2 ≠
@@ -348,7 +348,7 @@ theorem C15_different_types_never_share_node {st : Store} (h : st.TablesWF) (a b
 example : eqAny ⟨1, 42⟩ ⟨2, 42⟩ = false ∧ encode ⟨1, 42⟩ ≠ encode ⟨2, 42⟩ := by decide
 example : eqAny ⟨3, 42⟩ ⟨3, 42⟩ = true := by decide
 /-- the bound on the type tag in `C15_encode_injective` is needed -/
-example : encode ⟨8, 0⟩ = encode ⟨0, 0⟩ ∧ (⟨8, 0⟩ : Key) ≠ ⟨0, 0⟩ := by decide
+example : encode ⟨16, 0⟩ = encode ⟨0, 0⟩ ∧ (⟨16, 0⟩ : Key) ≠ ⟨0, 0⟩ := by decide
 
 /-- A concrete store: tasks 5, 6 and resource 5 get nodes 0, 1, 2; asking again for task 5 gives 0. -/
 example :
